@@ -1,11 +1,9 @@
 (* C03: closed agreement obligations on the regenerated tables + the generic theorem instantiated. *)
 From Coq Require Import List NArith String Bool Lia ZifyBool ZifyN.
 From Coq.Strings Require Import Byte.
-From Peppi Require Import Base.Bytes Layout.Syntax Gen.Funs Layout.Sem Layout.SpecTheory Layout.Spec Layout.Shapes Gen.Tables.
+From Peppi Require Import Base.Bytes Layout.Syntax Gen.Funs Layout.Sem Layout.SpecTheory Layout.Spec Layout.Shapes Gen.Tables Layout.Rows.
 Import ListNotations.
 
-Definition read_leaves (E : string) : list gleaf :=
-  match flatten tbl_read_push tbl_mut_decl E with Some l => l | None => [] end.
 
 (* obligation: what src/frame/mutable.rs says now, flattened, is the hand spec (paths, types, offsets, since) *)
 Lemma tables_agree_with_spec :
